@@ -240,7 +240,11 @@ func (m *Morass) write() {
 
 func (m *Morass) setErr(err error) {
 	m.errLock.Lock()
-	m._err = err
+	// Keep the first error: a later writer that succeeds
+	// must not overwrite it with nil.
+	if m._err == nil {
+		m._err = err
+	}
 	m.errLock.Unlock()
 }
 
